@@ -662,6 +662,10 @@ func runCase(ctx context.Context, out *vc.Out, lines []string) {
 			res = w.twin(parseSet(t[1]))
 		case "scan":
 			res = w.scan()
+			// the history of the document, encrypted or not, keeps the height rule (C04)
+			for _, why := range w.a.n.CommitHeightProblems(w.ctx, w.docID) {
+				out.Oracle(out.Lines, fmt.Sprintf("[dag-height] case %d: %s", w.caseID, why))
+			}
 		case "recv":
 			res = w.recv(t[1] == "key")
 		case "read":
